@@ -702,6 +702,14 @@ func (d *Document) addHeaderReference(headerType HeaderFooterType, headerID stri
 		ID:   headerID,
 	}
 
+	// 每种类型（default/first/even）只能有一个页眉引用：再次设置同一类型时替换原有引用，
+	// 否则节属性中会出现两个同类型的 w:headerReference
+	for i, ref := range sectPr.HeaderReferences {
+		if ref != nil && ref.Type == headerRef.Type {
+			sectPr.HeaderReferences[i] = headerRef
+			return
+		}
+	}
 	sectPr.HeaderReferences = append(sectPr.HeaderReferences, headerRef)
 }
 
@@ -719,6 +727,13 @@ func (d *Document) addFooterReference(footerType HeaderFooterType, footerID stri
 		ID:   footerID,
 	}
 
+	// 同一类型只保留一个页脚引用（见 addHeaderReference）
+	for i, ref := range sectPr.FooterReferences {
+		if ref != nil && ref.Type == footerRef.Type {
+			sectPr.FooterReferences[i] = footerRef
+			return
+		}
+	}
 	sectPr.FooterReferences = append(sectPr.FooterReferences, footerRef)
 }
 
